@@ -55,10 +55,54 @@ def shard(job) -> dict:
         from mc import rtrdflib  # noqa: PLC0415
 
         out = rtrdflib.run_job(job, judge)
+    elif job[0] == "N":
+        out = ns_job(job)
     else:
-        out = RT.run_job(job, judge)
+        out = RT.run_job(job, judge, include_out_of_domain=True)
     out["extra"] = {"distinct": len(out["extra"].get("digests", ()))}
     return out
+
+
+def ns_job(job) -> dict:
+    """Streams with namespace declarations (the C14 space), judged by the reference decoder."""
+    from mc.checks import c14  # noqa: PLC0415
+
+    _, api, cls, pi, lo, hi = job
+    DR.ensure_rdflib_plugin()
+    acc = pool.Acc()
+    preset = c14.PRESETS[pi]
+    blists = c14.binding_lists(2)
+    from mc import alphabets as AL  # noqa: PLC0415
+
+    for bl in blists[lo:hi]:
+        for seq in c14.stmt_seqs(cls):
+            if not all(AL.fits(st, preset) for st in seq):
+                continue
+            bindings = [c14.BINDINGS[i] for i in bl]
+            case = {"api": api, "cls": cls, "preset": list(preset), "bindings": list(bl),
+                    "seq": [list(x) for x in seq], "writer": "namespaces", "delimited": True,
+                    "family": "N"}
+            acc.evals += 1
+            acc.counters["ns_cases"] += 1
+            try:
+                data = c14.write(api, cls, seq, bindings, preset, True)
+            except Exception:  # noqa: BLE001
+                acc.counters["write_raised"] += 1
+                continue
+            acc.counters["streams"] += 1
+            acc.extra.setdefault("digests", set()).add(hash(data))
+            if api == "generic":
+                want_ns = [(p, ("I", i)) for p, i in bindings]
+            else:
+                want_ns = [(p, ("I", str(u))) for p, u in
+                           c14.r_source(cls, seq, bindings).namespaces()]
+            r = validate(data, True, T.norm_seq(seq), expect_ns=want_ns, as_set=api == "rdflib")
+            if r is not None:
+                acc.violation({"api": api, "cls": cls, "writer": "namespaces", "fail": r[0]},
+                              f"stream with namespace declarations rejected/misread by the "
+                              f"reference decoder: {r[1]} case={case}", case,
+                              {"bytes": data.hex()})
+    return acc.out()
 
 
 def run(ctx) -> None:
@@ -72,9 +116,14 @@ def run(ctx) -> None:
         expected += rtrdflib.expected_cases(rjobs)
     except ImportError:
         rjobs = []
-    merged = pool.merge(pool.pmap(shard, jobs + rjobs))
+    from mc.checks import c14  # noqa: PLC0415
+
+    nb = len(c14.binding_lists(2))
+    njobs = [("N", api, cls, pi, lo, hi) for api in ("generic", "rdflib") for cls in DR.CLASSES
+             for pi in range(len(c14.PRESETS)) for lo, hi in pool.split_range(nb, 2)]
+    merged = pool.merge(pool.pmap(shard, jobs + rjobs + njobs))
     ctx.add(merged)
-    if merged["evals"] != expected:
+    if merged["evals"] - merged["counters"].get("ns_cases", 0) != expected:
         from mc.env import HarnessError  # noqa: PLC0415
 
         raise HarnessError(f"enumerated {merged['evals']} cases, closed form says {expected}")
@@ -97,6 +146,20 @@ def run(ctx) -> None:
 
 
 def replay(case: dict) -> list:
+    if case.get("family") == "N":
+        from mc.checks import c14  # noqa: PLC0415
+
+        DR.ensure_rdflib_plugin()
+        api, cls = case["api"], case["cls"]
+        bindings = [c14.BINDINGS[i] for i in case["bindings"]]
+        seq = [T.from_json(x) for x in case["seq"]]
+        data = c14.write(api, cls, seq, bindings, tuple(case["preset"]), True)
+        if api == "generic":
+            want_ns = [(p, ("I", i)) for p, i in bindings]
+        else:
+            want_ns = [(p, ("I", str(u))) for p, u in c14.r_source(cls, seq, bindings).namespaces()]
+        r = validate(data, True, T.norm_seq(seq), expect_ns=want_ns, as_set=api == "rdflib")
+        return [r[1]] if r else []
     if case.get("api") == "rdflib":
         from mc import rtrdflib  # noqa: PLC0415
 
